@@ -66,6 +66,10 @@ pub fn compare_nan<T, N: ArrayLength, const R: usize>() {
     let pc = a.partial_cmp(&b);
     assert!(pc == lex(a.as_slice(), b.as_slice()));
     assert!((a == b) == all_eq(a.as_slice(), b.as_slice()));
+    // the same object on both sides: still element-wise (a NaN is not equal to itself), exactly like the slices
+    assert!((a == a) == all_eq(a.as_slice(), a.as_slice()), "an array compared with itself disagrees with its slice");
+    assert!((a == a) == (a.as_slice() == a.as_slice()));
+    assert!(a.partial_cmp(&a) == lex(a.as_slice(), a.as_slice()));
     kani_cover!(N::USIZE == 0 || pc.is_none(), "incomparable (NaN) pair reached");
     kani_cover!(N::USIZE == 0 || (a != a), "array with NaN is not equal to itself");
 }
